@@ -6,8 +6,10 @@ SEC_REPEAT = ["Sec", "Sec.", "Section", "Sect.", "§", "Secs", "Sections", "SECT
 LOT_LEAD = ["Lot", "Lots", "L", "L.", "Lt", "Lt.", "LOT", "LOTS", "lots"]
 LOT_REPEAT = ["Lot", "Lots", "L", "L.", "Lt", "Lt.", "LOT", "lots"]
 
-THROUGH = ["-", " - ", "–", " — ", " through ", " thru ", " thru. ", " to ", "—", " THROUGH ", " Thru ", " TO ", " THRU. ", " Through "]
-CONNECT = [", ", " and ", " & ", ", and ", "; ", ",", " and\n", " AND ", ", And "]
+THROUGH = ["-", " - ", "–", " — ", " through ", " thru ", " thru. ", " to ", "—", " THROUGH ", " Thru ", " TO ", " THRU. ", " Through ",
+           "\n- ", " -\n", "\nthrough ", " through\n", " to\n", "\nto "]
+# (a list may wrap onto the next line before or after a connective)
+CONNECT = [", ", " and ", " & ", ", and ", "; ", ",", " and\n", " AND ", ", And ", "\nand ", ",\nand ", "\n& ", ";\n", ",\n", " &\n"]
 
 
 def expand(items):
@@ -86,6 +88,14 @@ def _trim(t):
 @functools.lru_cache(maxsize=None)
 def rendered_list(kind, max_num, max_items=6):
     return st.tuples(list_model(max_num, max_items), _rendering(kind, max_items)).map(_trim)
+
+
+@functools.lru_cache(maxsize=None)
+def long_rendered_list(kind, max_num, sizes=(7, 10, 16, 24, 25, 26, 30, 36, 40)):
+    """Lists whose number of items is drawn first, so that long lists are as common as short ones."""
+    top = max(sizes)
+    model = st.sampled_from(sizes).flatmap(lambda n: st.lists(_item_strategy(max_num, 12), min_size=n, max_size=n))
+    return st.tuples(model, _rendering(kind, top)).map(_trim)
 
 
 def render(items, r, acres=None):
